@@ -232,12 +232,22 @@ def run(ctx, rep):
                 facts = frozenset(f for f in facts
                                   if not any(overlaps(w, r) for w in written for r in key_paths(f[0])))
             for o, v in norm_learn(learn):
+                if isinstance(o, tuple) and o and o[0] == "some_iff" and v == "None":
+                    # `opt.filter(pred)` gave None: opt was None or pred was false; over unchanged operands it cannot give Some later
+                    ki = pred_key(g, o[1])
+                    if ki is not None:
+                        if (ki, "true") in facts:
+                            return None
+                        facts = facts | {(("filtered-out", ki), "None")}
+                    continue
                 k = pred_key(g, o)
                 if k is None:
                     continue
                 for (k2, v2) in facts:
                     if k2 == k and v2 != v:
                         return None          # infeasible: same comparison, unchanged operands, opposite outcome
+                if v == "true" and (("filtered-out", k), "None") in facts:
+                    return None              # the same filter answered None before (see above)
                 facts = facts | {(k, v)}
             return (mutated, facts)
 
